@@ -32,6 +32,8 @@ pub enum Op {
     DeliverCancelled(u16),
     /// every peer with something outstanding (or in flight after a choke) delivers one block, all within one barrier
     DeliverAllPeersAtOnce,
+    /// one peer delivers its next block and, in the same barrier, another peer with something outstanding goes away
+    DeliverWhileOtherLeaves(u16, u16),
     Disconnect(u16),
 }
 
@@ -58,6 +60,7 @@ fn strategy() -> BoxedStrategy<Case> {
         3 => any::<u16>().prop_map(Op::DeliverAll),
         2 => any::<u16>().prop_map(Op::DeliverCancelled),
         2 => Just(Op::DeliverAllPeersAtOnce),
+        2 => (any::<u16>(), any::<u16>()).prop_map(|(a, b)| Op::DeliverWhileOtherLeaves(a, b)),
         1 => any::<u16>().prop_map(Op::Disconnect),
     ];
     // scenario templates that reach deep states; random ops follow
@@ -70,6 +73,8 @@ fn strategy() -> BoxedStrategy<Case> {
         // the same piece completes twice: the first fetcher chokes with the block in flight, a second peer takes the piece
         // over, both blocks arrive in the same barrier
         2 => Just(vec![Op::Join(5), Op::Join(5), Op::Unchoke(0), Op::ChokeKeep(0), Op::Unchoke(65535), Op::DeliverAllPeersAtOnce, Op::Join(0), Op::Join(2), Op::Unchoke(65535), Op::Unchoke(40000)]),
+        // end game: two seeders are asked for the same piece; one completes it while the other goes away
+        2 => Just(vec![Op::Join(0), Op::Join(0), Op::Unchoke(0), Op::Unchoke(65535), Op::DeliverWhileOtherLeaves(0, 0)]),
         // end game: two interested peers fetch the same pieces; one finishes first, the other's answer is already in flight
         1 => Just(vec![Op::Join(0), Op::Join(0), Op::Interested(0), Op::Interested(65535), Op::Unchoke(0), Op::Unchoke(65535)]),
         // a peer in the middle of a download sends a second, empty bitfield and then announces pieces one by one
@@ -175,6 +180,15 @@ pub fn check_invariants(w: &World, net: &Net, inv: &mut Inv, what: &str) {
     // I5 (C13 seen from the wire): an assignment never picks a piece that is already being fetched from another peer
     // unless fewer than ten pieces are missing. Reported under a c13- signature; C12 itself ignores it.
     for cr in w.cmds.iter().skip(inv.cmds_checked) {
+        // I1 at manager-step granularity: no handled command turns an owned piece into anything else
+        for i in 0..cr.before.len().min(cr.after.len()) {
+            if cr.before[i] == Status::Have && cr.after[i] != Status::Have {
+                inv.fails.push((
+                    "owned-piece-lost".into(),
+                    format!("{}: handling {} from {} turned piece {} from Have into {:?} (statuses {:?} -> {:?})", what, cr.kind, cr.addr, i, cr.after[i], cr.before, cr.after),
+                ));
+            }
+        }
         if matches!(cr.kind, "RecvUnchoke" | "RecvHave" | "PieceDone" | "PieceCancel") {
             if let Some(i) = cr.peer_piece_after {
                 let newly = cr.peer_piece_before != Some(i) || cr.kind != "RecvHave";
@@ -417,6 +431,30 @@ fn check_all(c: &Case) -> Outcome {
                             net.answer(w, p, 0);
                         }
                     }
+                    Op::DeliverWhileOtherLeaves(a, b) => {
+                        let with_req: Vec<usize> = live.iter().copied().filter(|p| !net.peers[*p].view.outstanding.is_empty()).collect();
+                        if with_req.len() >= 2 {
+                            let pa = with_req[idx(*a, with_req.len())];
+                            let others: Vec<usize> = with_req.iter().copied().filter(|p| *p != pa).collect();
+                            let pb = others[idx(*b, others.len())];
+                            // prefer the interesting race: both were asked for the same piece
+                            let same = net.peers[pa].view.outstanding.front().map(|r| r.0) == net.peers[pb].view.outstanding.front().map(|r| r.0);
+                            if same {
+                                classes.push("fetcher-leaves-as-the-other-completes-the-same-piece");
+                            }
+                            // pb's connection drops while pa's block is on its way, and pb's task does not get to run until the
+                            // manager has handled pa's completion: when it runs again both the Have broadcast and the end of
+                            // its stream are waiting, in an order decided by select!'s (seeded) coin
+                            let cb = net.peers[pb].conn;
+                            w.frozen.insert(cb);
+                            net.disconnect(w, pb);
+                            net.answer(w, pa, 0);
+                            net.observe(w).await;
+                            w.frozen.remove(&cb);
+                            classes.push("connection-dropped-between-completion-and-broadcast");
+                            classes.push("disconnect-while-assigned");
+                        }
+                    }
                     Op::DeliverCancelled(p) => {
                         let with_c: Vec<usize> = live.iter().copied().filter(|p| !net.peers[*p].view.cancelled_pending.is_empty()).collect();
                         if !with_c.is_empty() {
@@ -446,6 +484,11 @@ fn check_all(c: &Case) -> Outcome {
                 let missing = snap.statuses.iter().filter(|s| **s != Status::Have).count();
                 if snap.peers.len() >= 2 {
                     max_missing_with_peers = max_missing_with_peers.max(missing);
+                }
+            }
+            if std::env::var("VERIF_DEBUG").is_ok() {
+                for cr in &w.cmds {
+                    eprintln!("{:?} {} {} piece {:?}->{:?} {:?} -> {:?}", cr.t, cr.kind, cr.addr, cr.peer_piece_before, cr.peer_piece_after, cr.before, cr.after);
                 }
             }
             let peers_used = net.peers.len();
@@ -500,7 +543,7 @@ pub fn def() -> PropDef {
             cases: |t| t.pick(12_000, 200_000),
             run: |ctx| run_proptest(ctx, "histories", strategy(), check),
             replay: |v| replay_case::<Case>(v, check),
-            min_class: &[(">=2-peers", 0.4196), ("choke-while-assigned", 0.2), ("disconnect-while-assigned", 0.1), (">=10-missing-with-2-peers", 0.15), ("redundant-unchoke", 0.2), ("redundant-choke", 0.1), ("block-delivered-while-choking", 0.02), ("repeated-bitfield", 0.1), ("late-block-after-cancel", 0.01)],
+            min_class: &[(">=2-peers", 0.4196), ("choke-while-assigned", 0.2), ("disconnect-while-assigned", 0.1), (">=10-missing-with-2-peers", 0.15), ("redundant-unchoke", 0.2), ("redundant-choke", 0.1), ("block-delivered-while-choking", 0.02), ("repeated-bitfield", 0.1), ("late-block-after-cancel", 0.01), ("fetcher-leaves-as-the-other-completes-the-same-piece", 0.005)],
         }],
     }
 }
